@@ -418,6 +418,29 @@ def _work(job):
     return res
 
 
+def _work_wd(job):
+    import logging
+    logging.disable(logging.CRITICAL)
+    cases, use_model = job
+    runs, lines = [], []
+    for c in cases:
+        ev, out, info = wd_direct(c["rt"], c["period"], c["jitter"], c["lats"])
+        runs.append((c, out, info))
+        lines.append("wd %d 0 %s" % (c["rt"], " ".join(ev)))
+    mouts = core.Model(RUNNER).batch(lines) if use_model else [None] * len(lines)
+    res = {"n": len(cases), "drop": 0, "nontriv": [], "viol": {}, "mism": [], "lines": lines[:2]}
+    for (c, out, info), mo in zip(runs, mouts):
+        res["drop"] += info["drop"] is not None
+        if len(info["probes"]) >= 2:
+            res["nontriv"].append(("wd", c["period"], tuple(c["lats"]), str(c["jitter"])))
+        for key, what in wd_monitor(c["rt"], c["lats"], info):
+            if key not in res["viol"]:
+                res["viol"][key] = (what, c)
+        if mo is not None and mo.split(" ") != out and len(res["mism"]) < 5:
+            res["mism"].append((c, " ".join(out), mo))
+    return res
+
+
 def sequences(alpha, maxlen):
     for n in range(1, maxlen + 1):
         for s in itertools.product(alpha, repeat=n):
@@ -513,22 +536,21 @@ def run(ctx, res):
         raise sf.HarnessError("rig failures (not violations): %s" % herr[:3])
     # watchdog, direct drive of check_connection
     wcases = wd_cases(ctx, RT, period)
-    lines, runs = [], []
-    for c in wcases:
-        ev, out, info = wd_direct(c["rt"], c["period"], c["jitter"], c["lats"])
-        runs.append((c, ev, out, info))
-        lines.append("wd %d 0 %s" % (c["rt"], " ".join(ev)))
-    mouts = ctx.model.batch(lines) if use_model else [None] * len(lines)
-    for (c, ev, out, info), mo in zip(runs, mouts):
-        res.evaluations += 1
-        res.count("wd:" + ("drop" if info["drop"] is not None else "kept"))
-        if len(info["probes"]) >= 2:
-            res.nontriv(("wd", c["period"], tuple(c["lats"]), str(c["jitter"])))
-        for key, what in wd_monitor(c["rt"], c["lats"], info):
-            res.violate(key, what, c, kind="monitor")
-        if mo is not None and mo.split(" ") != out:
-            res.violate("corr/wd", "model %s != implementation %s for %s" % (mo, " ".join(out), c), c,
-                        kind="correspondence", found_input=False)
+    wjobs = [(ch, use_model) for ch in chunked(iter(wcases), 500)]
+    lines = []
+    with ProcessPoolExecutor(max_workers=min(16, os.cpu_count() or 4)) as ex:
+        for r in ex.map(_work_wd, wjobs, chunksize=1):
+            res.evaluations += r["n"]
+            res.count("wd:drop", r["drop"])
+            res.count("wd:kept", r["n"] - r["drop"])
+            for h in r["nontriv"]:
+                res.nontriv(h)
+            lines.extend(r["lines"])
+            for key, (what, c) in r["viol"].items():
+                res.violate(key, what, c, kind="monitor")
+            for c, got, exp in r["mism"]:
+                res.violate("corr/wd", "model %s != implementation %s for %s" % (exp, got, c), c,
+                            kind="correspondence", found_input=False)
     res.extra["watchdog_schedules"] = len(wcases)
     res.exhaustive = not ctx.searching
     res.extra["exhaustive_subspaces"] = ["event sequences up to the tier's length per flavour", "latency grid^n x poll periods"]
